@@ -11,14 +11,14 @@ import z3
 
 from . import core
 from .core import SInt, SBool, Unsupported, cur, as_int_term, fresh_name, is_sym
-from .arr import (SymArr, SElem, I, dim_term, dim_value, same_dim, binary, unary, as_operand, _NotArrayLike,
+from .arr import (SymArr, SElem, SBV, I, dim_term, dim_value, same_dim, binary, unary, as_operand, _NotArrayLike,
                   scalar_term, coerce_term, kind_of_term, wrap_scalar, zero_of, sort_of_dtype, forall_fact,
                   nonzero_facts, check_index_bounds, wrap_index, from_list, norm_dim, apply_binary,
                   ElemSort, UF, ELEM_CONST, assign_all, scatter, is_concrete_int, wrap_dim, py_floordiv)
 
 
 def _symbolic(x):
-    if isinstance(x, (SymArr, SInt, SBool, SElem)):
+    if isinstance(x, (SymArr, SInt, SBool, SElem, SBV)):
         return True
     if isinstance(x, (list, tuple)):
         return any(_symbolic(e) for e in x)
